@@ -39,16 +39,17 @@ def run(ctx):
     qk = ctx.quick
     runs = []
     samples = []
-    for i in range(60 if qk else 500):
-        n = rng.choice([1, 1, 2, 2, 3, 4, 5]) if i >= 12 else 1
+    NEEDLES = 30          # a fixed share of one-dimensional needle / trap objectives in every run
+    for i in range(78 if qk else 500):
+        n = rng.choice([1, 1, 2, 2, 3, 4, 5]) if i >= NEEDLES else 1
         r_ = rng.choice([2.0, 3.0, 4.0, 6.0, 10.0, 20.0, 40.0, rng.uniform(1.5, 30)])
         eps = rng.choice([0.1, 0.05, 0.02, 0.2, rng.uniform(0.02, 0.3)])
         if n >= 3 and r_ > 10:
             r_ = rng.choice([4.0, 6.0, 8.0])          # large r in high dimension only exhausts the budget
         lo, up, w, cs, hs = cone_problem(rng, n, True)
         mode = rng.choice(["flat", "premise-by-M", "steep", "needle", "needle", "needle"]) if n <= 2 else rng.choice(["flat", "flat", "premise-by-M", "steep"])
-        if i < 12:
-            mode = "needle"          # a fixed share of one-dimensional needle / trap objectives in every run
+        if i < NEEDLES:
+            mode = "needle"
         if mode == "flat":
             Lmax = r_ / KN[n] * rng.uniform(0.3, 0.999)          # K_N L <= r: the bound holds unconditionally
         elif mode == "premise-by-M":
@@ -91,7 +92,7 @@ def run(ctx):
             eps = max(eps, rng.choice([0.2, 0.3, 0.25]))
         run_ = SolverRun(FnProblem(n, lo, up, f, "cones/" + mode), r=r_, eps=eps, limit=limit, m=m, tag="cones/" + mode, full_snap=False,
                          listener="none", lip=Lmax, fmin=min(hs))
-        if (rng.random() < 0.35 and i >= 12) or (mode == "needle" and i % 4 == 0) or mode == "trap":
+        if (rng.random() < 0.35 and i >= NEEDLES) or (mode == "needle" and i % 4 == 0) or mode == "trap":
             # the same guarantee must hold when part of the search is made through DoGlobalIteration batches (one big batch, or several)
             if rng.random() < 0.5:
                 run_.dgi(rng.choice([25, 40, 60]))
